@@ -52,9 +52,14 @@ def in_range_calls(F, rng, budget=300):
             for (c, d) in windows(thin(cz, rng, 10), rng, 4):
                 calls.append(('read_subplane', [a, b, c, d]))
         calls.append(('read_subplane', [0, nx, 0, nz]))
+        wz = windows(thin(cz, rng, 9), rng, 14)
         for t in thin(range(nx), rng, max(8, budget // 6)):
-            calls.append(('get_trace', [t]))
+            calls.append(('get_trace', [t, NONE, NONE]))
             calls.append(('gen_trace_header', [t]))
+            w = wz[rng.integers(len(wz))]
+            calls.append(('get_trace', [t, w[0], w[1]]))
+            calls.append(('get_trace_by_coord', [t, 2 * w[0], 2 * w[1]]))
+            calls.append(('get_trace_by_coord', [t, NONE, NONE]))
         return calls
     ci, cx, cz = cands(ni, bi), cands(nx, bx), cands(nz, bz)
     q = max(4, budget // 30)
@@ -128,8 +133,14 @@ def out_of_range_calls(F, rng, budget=300):
 
     if F['dim'] == 2:
         for v in bad(nx, px):
-            calls.append(('get_trace', [v]))
+            calls.append(('get_trace', [v, NONE, NONE]))
+            calls.append(('get_trace', [v, 0, min(nz, 3)]))
             calls.append(('gen_trace_header', [v]))
+        for t in thin(range(nx), rng, 4):
+            for w in badwin(nz, pz):
+                calls.append(('get_trace', [t, w[0], w[1]]))
+            for (a, b) in ((-2, 4), (0, 2 * nz + 2), (0, 2 * pz), (2 * nz, 2 * nz + 2), (1, 4), (0, 2 * nz + 1), (4, 2), (2, 2)):
+                calls.append(('get_trace_by_coord', [t, a, b]))
         for w in badwin(nx, px):
             calls.append(('read_subplane', [w[0], w[1], 0, nz]))
             calls.append(('read_subplane', [w[0], w[1], 1, min(nz, 3)]))
